@@ -16,6 +16,7 @@ MAP = {"1": ["C09", "C10", "C11", "C07"], "2": ["C11", "C10", "C07"], "3": ["C08
        # batch 4 (protocol / data plumbing)
        "43": ["C03", "C02"], "44": ["C03", "C02"], "45": ["C06", "C01"], "46": ["C16", "C17"], "47": ["C17", "C01", "C03"], "48": ["C03", "C04"], "49": ["C19"], "50": ["C05"],
        "51": ["C03", "C01"], "52": ["C16", "C03"], "53": ["C20"], "54": ["C20", "C15", "C01"], "55": ["C05"], "56": ["C19"], "57": ["C19"], "58": ["C05", "C03"],
+       "59": ["C16", "C17", "C01"],
        "35": ["C11", "C09"], "36": ["C11", "C07"], "37": ["C08"], "38": ["C08", "C04"], "39": ["C15", "C17"], "40": ["C15", "C01"], "41": ["C20", "C01"], "42": ["C20", "C15"]}
 if len(sys.argv) > 1:
     MAP = {k: v for k, v in MAP.items() if k in sys.argv[1:]}
@@ -24,7 +25,7 @@ for k in sorted(os.listdir(f"{V}/refactors"), key=lambda x: int(x) if x.isdigit(
     d = f"{V}/refactors/{k}"
     if not os.path.exists(f"{d}/patch.diff") or k not in MAP:
         continue
-    subprocess.run(["git", "-C", "/repo", "checkout", "-q", "--", "."], check=True)
+    subprocess.run(["git", "-C", "/repo", "checkout", "-q", "--", "."], check=True); subprocess.run(["git", "-C", "/repo", "clean", "-fdq", "src"], check=True)
     if subprocess.run(["git", "-C", "/repo", "apply", f"{d}/patch.diff"]).returncode != 0:
         print(f"R{k}: patch does not apply"); continue
     try:
@@ -36,6 +37,6 @@ for k in sorted(os.listdir(f"{V}/refactors"), key=lambda x: int(x) if x.isdigit(
             if r.returncode == 1:
                 bad += 1
     finally:
-        subprocess.run(["git", "-C", "/repo", "checkout", "-q", "--", "."], check=True)
+        subprocess.run(["git", "-C", "/repo", "checkout", "-q", "--", "."], check=True); subprocess.run(["git", "-C", "/repo", "clean", "-fdq", "src"], check=True)
 print(f"false alarms: {bad}")
 sys.exit(1 if bad else 0)
